@@ -1,8 +1,9 @@
 use crate::harness::PropFn;
 
+pub mod c01;
 pub mod c09;
 
-pub const REGISTRY: &[(&str, PropFn)] = &[("C09", c09::run)];
+pub const REGISTRY: &[(&str, PropFn)] = &[("C01", c01::run), ("C09", c09::run)];
 
 pub fn lookup(name: &str) -> Option<PropFn> {
     REGISTRY.iter().find(|(n, _)| *n == name).map(|(_, f)| *f)
